@@ -215,7 +215,8 @@ def FullStatement_perm_definitions : Prop :=
   ∀ (s : SchemaD) (d d' : Doc), d.defs.Perm d'.defs → verdict { schema := s } d = verdict { schema := s } d'
 
 /-- full statement: reordering selections / arguments and renaming fragments injectively never changes the
-    verdict of the chain (aliases and variables: not yet covered by `Tr`) -/
+    verdict of the chain (renaming of aliases: `Al`, Props/C06_inv6.lean; of variables: `Vr`, Props/C06_inv7.lean,
+    C06_inv8.lean - each proved for 25 of the 26 rules) -/
 def FullStatement_tr_invariance : Prop :=
   ∀ (T : Tr), (∀ a b, T.frag a = T.frag b → a = b) → ∀ (s : SchemaD) (d : Doc),
     verdict { schema := s } (T.doc d) = verdict { schema := s } d
